@@ -27,7 +27,7 @@ EXTRA = [
 
 
 def run(ctx):
-    kernel_sync.run(ctx, "life", 200, 3000, extra=EXTRA, compare_outcomes=False,
+    kernel_sync.run(ctx, "life", 200, 1000, extra=EXTRA, compare_outcomes=False,
                     nontrivial=lambda p: any(o["op"] in ("kill", "killall", "join", "create", "killtime", "daemon") for a in p["actors"] for o in a),
                     rule_note="the program kills, joins, creates, daemonizes or sets a kill time",
-                    gen=lambda rng, quick: K.gen_life_prog(rng, max_actors=4 if quick else 5, max_ops=5 if quick else 7))
+                    gen=lambda rng, quick: K.gen_life_prog(rng, max_actors=4, max_ops=5 if quick else 6))
